@@ -166,7 +166,7 @@ def angleAxis (angle : K) (axis : V3 K) : Quat K :=
     constructor and by where the dot product used for the orthogonalisation of `newx` is
     taken: as found, `dotprod = newz · newx` is computed **before** `newz` is normalised
     (so the component removed from `newx` is wrong by the factor `|newz|`, finding F18);
-    with `fixDot` it is computed with the normalised `newz` (fixes/F18.diff). -/
+    with `fixDot` it is computed with the normalised `newz` (fixes/C20-to-new-axes-orthogonalise.diff). -/
 def toNewAxesWith (ft : V3 K → V3 K → Quat K) (fixDot : Bool) (newz newx : V3 K) : Quat K :=
   let dotprod0 := dot newz newx
   let newz := normalize newz
